@@ -302,13 +302,19 @@ func (p *Pool) ExploreAll(jobs []Job) []*HarnessResult {
 	}
 	defer close(stopProgress)
 	for _, m := range p.Ms {
+		m.S.Restart()
+		m.lastHSet = false
 		m.S.Stats = solver.Stats{}
 		m.Stats = MStats{Unsupported: map[string]int{}, Internal: map[string]int{}}
 		wg.Add(1)
 		go func(m *Machine) {
 			defer wg.Done()
 			for {
-				t, ok := w.pop()
+				prefer := -1
+				if m.lastHSet {
+					prefer = m.lastH
+				}
+				t, ok := w.pop(prefer)
 				if !ok {
 					return
 				}
